@@ -240,7 +240,11 @@ class Scrollable(WidgetDecoration[WrappedWidget]):
 
         # Resolve the pending scroll action / clamp the position even if nothing has to be trimmed:
         # content that fits into the view is always at position 0
+        old_trim_top = self._trim_top
         self._adjust_trim_top(canv, size)
+        if self._trim_top != old_trim_top:
+            # canvases cached for other sizes (or another focus state) still show the old position
+            self._invalidate()
 
         if canv_cols <= maxcol and canv_rows <= maxrow:
             # Canvas is small enough to fit without trimming
